@@ -258,7 +258,9 @@ attempts:
 		}
 		cmd := exec.Command(bin, in.args...)
 		cmd.Dir = dir // viper also looks for ./config.*
-		cmd.Env = []string{"PATH=/usr/bin:/bin", "HOME=" + filepath.Join(dir, "home"), "TMPDIR=" + filepath.Join(dir, "tmp")}
+		cmd.Env = []string{"PATH=/usr/bin:/bin", "HOME=" + filepath.Join(dir, "home"), "TMPDIR=" + filepath.Join(dir, "tmp"),
+			// the server's "host trust store" holds exactly the driver's host CA (see certs.go)
+			"SSL_CERT_FILE=" + hostCAFile, "SSL_CERT_DIR=" + hostCertDir}
 		cmd.Stdout, cmd.Stderr = logf, logf
 		cmd.SysProcAttr = &syscall.SysProcAttr{Setpgid: true, Pdeathsig: syscall.SIGKILL}
 		if err := cmd.Start(); err != nil {
